@@ -202,10 +202,16 @@ def run(module, cfg=None, workers=16, env=None, timeout=600, metadir=None, cover
         e.update({k: str(v) for k, v in env.items()})
     t0 = time.time()
     try:
-        p = subprocess.run(cmd, cwd=cwd, env=e, stdout=subprocess.PIPE, stderr=subprocess.STDOUT,
-                           timeout=timeout, text=True, errors="replace")
-        out = p.stdout
-        rc = p.returncode
+        for attempt in range(3):
+            p = subprocess.run(cmd, cwd=cwd, env=e, stdout=subprocess.PIPE, stderr=subprocess.STDOUT,
+                               timeout=timeout, text=True, errors="replace")
+            out = p.stdout
+            rc = p.returncode
+            # the JVM itself died (could not reserve its heap / was killed on a machine busy with other JVMs): TLC's own exit
+            # codes are 0, 10-14 (violations) and 150-153 (spec errors); anything else without a TLC verdict is retried
+            if rc in (0, 10, 11, 12, 13, 14, 75, 150, 151, 152, 153) or "Model checking completed" in out or "Error:" in out:
+                break
+            time.sleep(5 + 10 * attempt)
         timed_out = False
     except subprocess.TimeoutExpired as ex:
         out = ex.stdout if isinstance(ex.stdout, str) else (ex.stdout or b"").decode("utf8", "replace")
